@@ -1816,6 +1816,75 @@ def module_scenarios(rng, count):
     return out
 
 
+def module_builtin_scenarios():
+    """each module sees the BUILT-INS, whatever another module (the importer included) has bound to the same names, and a module that
+    rebinds a built-in name changes only its own global: one party rebinds name X (a built-in function or class), before or after
+    the other module is first loaded, and the other party keeps using X the built-in way - in its body and in a function called later."""
+    out = []
+    names = ["print", "type", "Vec", "StopIter", "Error", "Fiber", "String", "Object", "TypeError"]
+
+    def use(b, x, tag):
+        """statements that use built-in x and print what they saw"""
+        if x == "print":
+            b.print(lit(tag + " prints through print"))
+            b.expr(call(b.v("print"), lit(tag + " calls print")))
+        elif x == "type":
+            b.print(tup(lit(tag), call(b.v("type"), lit(1)), call(b.v("type"), lit("s"))))
+        elif x == "Fiber":
+            b.print(tup(lit(tag), inv(inv(b.v("Fiber"), "new", b.lam([], lambda: lit("fiber ran"))), "call")))
+        elif x == "Vec":
+            b.print(tup(lit(tag), b.v("Vec"), bin_("==", call(b.v("type"), vec(lit(1))), b.v("Vec"))))
+        elif x == "String":
+            b.print(tup(lit(tag), b.v("String"), bin_("==", call(b.v("type"), lit("s")), b.v("String"))))
+        else:
+            b.print(tup(lit(tag), b.v(x), bin_("==", b.v(x), call(b.v("type"), lit(1)))))
+
+    for x, who, when in itertools.product(names, ("main", "lib", "lib-fn"), ("before", "after")):
+        if who == "lib-fn" and when == "before":
+            continue
+        lb = Builder(first_decl=5000)
+        ob = Builder(first_decl=7000)
+        b = Builder()
+        b.var("say", b.v("print"))
+        b.var("kind", b.v("type"))
+        marker = lit("rebound %s of %s" % (x, who))
+        # `other` is loaded first in the `after` arrangements, so that its globals exist before the rebinding happens
+        ob.var("name", lit("other"))
+        use(ob, x, "other body")
+        ob.fn("later", []); use(ob, x, "other fn"); ob.ret(lit("other.later done")); ob.end()
+        lb.var("name", lit("lib"))
+        if who == "lib" and when == "before":
+            lb.var("keep", lb.v(x)); lb.var(x, marker)
+        if who != "lib" or when == "after":
+            use(lb, x, "lib body")
+        lb.fn("later", [])
+        if who in ("lib", "lib-fn"):
+            lb.ret(tup(lit("lib's own"), lb.v(x)))
+        else:
+            use(lb, x, "lib fn"); lb.ret(lit("lib.later done"))
+        lb.end()
+        lb.fn("rebind", []); lb.expr(lb.assign(x, marker)); lb.ret(lit("lib rebound it")); lb.end()
+        if who == "lib" and when == "after":
+            lb.var(x, marker)
+        if when == "after":
+            b.import_("other", "other")
+        if who == "main":
+            b.var(x, marker)
+        b.import_("lib", "lib")
+        if who == "lib-fn":
+            b.expr(call(b.v("say"), inv(b.v("lib"), "rebind")))
+        if when == "before" or who != "main":
+            b.import_("other", "other2")
+        b.expr(call(b.v("say"), inv(b.v("lib"), "later")))
+        b.expr(call(b.v("say"), inv(b.v("other" if when == "after" else "other2"), "later")))
+        if who != "main":
+            use(b, x, "main")
+        b.expr(call(b.v("say"), tup(lit("lib."), get(b.v("lib"), x) if who != "main" else lit("-"))))
+        mods = [{"path": "lib", "prog": lb.toks}, {"path": "other", "prog": ob.toks}]
+        out.append(("modbuiltin:%s:%s:%s" % (x, who, when), {"snips": [{"prog": b.toks}], "mods": mods}))
+    return out
+
+
 # ---------------------------------------------------------------------------------------------------
 # C15: sequences of snippets fed to one interpreter
 # ---------------------------------------------------------------------------------------------------
